@@ -9,6 +9,39 @@ type Decision struct {
 	opts   []int64
 	idx    int
 	forced bool
+	// sleep-set bookkeeping for scheduling decisions: identity of each option (goroutine id, or
+	// -1-timerIndex), the footprint of the option's first step (union over the variants explored),
+	// whether its subtree has been explored completely, and the allocation counter at the decision.
+	ident []int
+	fps   []*footprint
+	done  []bool
+	birth int
+	taint bool // part of the current option's subtree was given to another worker
+}
+
+// footprint is the set of pre-existing heap objects (by allocation id) a step read (1) or wrote (2).
+type footprint struct {
+	acc map[int]uint8
+	all bool
+}
+
+func (f *footprint) conflicts(o *footprint) bool {
+	if f == nil || o == nil {
+		return true
+	}
+	if f.all || o.all {
+		return true
+	}
+	a, b := f.acc, o.acc
+	if len(a) > len(b) {
+		a, b = b, a
+	}
+	for id, m := range a {
+		if n, ok := b[id]; ok && (m|n)&2 != 0 {
+			return true
+		}
+	}
+	return false
 }
 
 func (d Decision) String() string {
@@ -60,6 +93,10 @@ func (e *Explorer) next() bool {
 	for i := len(e.dec) - 1; i >= e.frozen; i-- {
 		d := &e.dec[i]
 		if d.idx+1 < len(d.opts) {
+			if d.done != nil && !d.taint {
+				d.done[d.idx] = true
+			}
+			d.taint = false
 			d.idx++
 			e.dec = e.dec[:i+1]
 			e.pos = 0
@@ -81,9 +118,29 @@ func (e *Explorer) split() [][]Decision {
 				copy(p, e.dec[:i+1])
 				p[i].idx = k
 				p[i].opts = d.opts
+				// the receiving worker must not share mutable bookkeeping with the donor: it keeps
+				// the footprints of completed siblings only
+				for j := range p {
+					if p[j].done != nil {
+						p[j].done = append([]bool(nil), p[j].done...)
+						p[j].fps = append([]*footprint(nil), p[j].fps...)
+						for x := range p[j].fps {
+							if !p[j].done[x] {
+								p[j].fps[x] = nil
+							}
+						}
+						p[j].taint = true
+					}
+				}
 				jobs = append(jobs, p)
 			}
 			d.opts = d.opts[:d.idx+1]
+			// the donor's open options above now have incomplete first-step footprints
+			for j := 0; j <= i; j++ {
+				if e.dec[j].done != nil {
+					e.dec[j].taint = true
+				}
+			}
 			return jobs
 		}
 	}
